@@ -286,6 +286,17 @@ class SameAsT(Spec):
         return None        # replaced by the other argument once all arguments exist (verify.make_run)
 
 
+class DerivedT(Spec):
+    """a parameter computed from the other (possibly ghost) parameters: fn(I, args) -> value"""
+
+    def __init__(self, label, fn):
+        self.label = label
+        self.fn = fn
+
+    def make(self, I, name):
+        return None        # computed once all other arguments exist (verify.make_run)
+
+
 class LockT(Spec):
     label = 'lock'
 
@@ -334,6 +345,7 @@ class T:
     lock = LockT()
     symobjlist = SymObjListT
     same_as = SameAsT
+    derived = DerivedT
     symcoll = SymCollT
     symlist = SymListT()
 
